@@ -1,6 +1,7 @@
 package chain
 
 import (
+	"go.sia.tech/core/consensus"
 	"go.sia.tech/core/types"
 	"go.sia.tech/coreutils/internal/vapi"
 )
@@ -51,7 +52,28 @@ func verifC01(maxMain, maxSide, maxBatch int, prune bool) {
 	n := vapi.Int("batch", 1, maxBatch)
 	var batch []types.Block
 	orphan := false
-	for i := 0; i < n; i++ {
+	prevalidated := vapi.Bool("prevalidated")
+	var states []consensus.State
+	if prevalidated {
+		// a chain of pre-validated v2 blocks on any stored block
+		p := vapi.Int("parent", 0, existing)
+		pn := uint64(0)
+		if p > 0 {
+			pn = c.blocks[p-1].Nonce
+		}
+		ps, ok := c.m.State(absID(pn))
+		vapi.Assert("build.parent-state", ok)
+		for i := 0; i < n; i++ {
+			b := c.newBlock(pn, true)
+			b.V2 = &types.V2BlockData{Height: ps.Index.Height + 1}
+			ps = stubApplyHeader(ps, b.Header(), b.Timestamp)
+			absW.validated[b.Nonce] = true // validated by the caller, by contract
+			batch = append(batch, b)
+			states = append(states, ps)
+			pn = b.Nonce
+		}
+	}
+	for i := 0; i < n && !prevalidated; i++ {
 		switch vapi.Int("kind", 0, 3) {
 		case 0: // new block on an existing block (or genesis)
 			p := vapi.Int("parent", 0, existing)
@@ -77,7 +99,12 @@ func verifC01(maxMain, maxSide, maxBatch int, prune bool) {
 	}
 	pre := c.audit()
 	preDiff := uint64(c.m.TipState().OakTime)
-	err := c.m.AddBlocks(batch)
+	var err error
+	if prevalidated {
+		err = c.m.AddValidatedV2Blocks(batch, states)
+	} else {
+		err = c.m.AddBlocks(batch)
+	}
 	post := c.audit()
 
 	last := batch[n-1].Nonce
